@@ -74,9 +74,9 @@ let run (path : string) =
     (try L.iteri (fun i (mg, ig) -> cmpf (Printf.sprintf "gauge[%d]" i) (show_gauge mg) (show_gauge ig)) (L.combine m.Gauge.r_gauges igs)
      with Invalid_argument _ -> ());
     let ies = L.rev !es in
-    cmpf "epochs" (S.concat " " (L.map show_epoch m.Gauge.r_epochs)) (S.concat " " (L.map show_epoch ies));
+    cmpf "epochs" (S.concat ";" (L.map show_epoch m.Gauge.r_epochs)) (S.concat ";" (L.map show_epoch ies));
     let ixs = L.map snd (L.rev !xs) in
-    cmpf "exts" (S.concat " " (L.map show_ext m.Gauge.r_exts)) (S.concat " " (L.map show_ext ixs));
+    cmpf "exts" (S.concat ";" (L.map show_ext m.Gauge.r_exts)) (S.concat ";" (L.map show_ext ixs));
     L.iter (fun (d, b) -> cmpf (Printf.sprintf "bal[%d]" d) (sz (m.Gauge.r_bal (zi d))) (sz b)) (L.rev !bs) in
   (* custody on the implementation's observation, every denom *)
   let custody () =
